@@ -222,6 +222,8 @@ class World:
                 d["steer_skipped"] = st["mode"]
             else:
                 d["steer"] = res
+                if st.get("keep_symbolic"):
+                    d["symbolic_steer"] = st
         return d
 
     def _only_if(self, step):
@@ -407,6 +409,11 @@ class World:
         for k in range(1, max(n_checks, len(env_list)) + 1):
             d = dict(env_list[k - 1]) if k - 1 < len(env_list) else dict(default)
             st = d.get("steer")
+            if d.get("symbolic_steer"):
+                # derived from an artefact of this very run (an exported file): a replay derives it again
+                d["steer"] = d.pop("symbolic_steer")
+                out.append(d)
+                continue
             if st is not None:
                 r = by_k.get(k)
                 if r is not None:
